@@ -110,7 +110,7 @@ def _tensor_samples(b: _B):
 
 @rule(
     "PASS-EQUIV",
-    ["C17"],
+    ["C17", "C08"],
     "optimizer.licm, fuse_loops, fuse_sections and optimize, interpreted from source on sample sections built with "
     "the repository's constructors (tensor computations as generate_block_parts builds them: single term, interior-"
     "facet restriction blocks, blocked components, shared lhs, literal factors; coefficient/Jacobian definitions "
@@ -126,13 +126,16 @@ def pass_equiv(repo, res):
             raise AnalysisError(f"anchor vanished: optimizer.{fn}")
         res.functions.add(opt.funcs[fn].key)
 
-    def compare(key, label, before, after, outputs, loc):
+    DEF_EXTENTS = {"FE0": (1, 3, 2, 3), "FE1": (1, 3, 2, 3), "FE2": (1, 3, 2, 6), "FE3": (1, 3, 2, 3), "FE4": (1, 3, 2, 3), "w": (15,), "coordinate_dofs": (9,),
+                   "entity_local_index": (2,), "quadrature_permutation": (2,)}
+
+    def compare(key, label, before, after, outputs, loc, extents=None):
         try:
-            m0, _ = meaning(before, outputs=outputs, concrete=CONCRETE)
+            m0, _ = meaning(before, outputs=outputs, concrete=CONCRETE, extents=extents)
         except ExecError as e:
             raise AnalysisError(f"PASS-EQUIV: sample `{label}` is itself ill-formed: {e}")
         try:
-            m1, _ = meaning(after, outputs=outputs, concrete=CONCRETE)
+            m1, _ = meaning(after, outputs=outputs, concrete=CONCRETE, extents=extents)
         except ExecError as e:
             res.fail(key, f"{label}: the transformed code is ill-formed: {e}", loc)
             return
@@ -174,7 +177,7 @@ def pass_equiv(repo, res):
         res.fail(key, f"optimize raises ({e.what}) on coefficient/Jacobian definition sections", opt.line(g.node))
         out = None
     if out is not None:
-        compare(key, "optimize on six coefficient/Jacobian definition sections", b.quadloop(orig), b.quadloop(out), outs, opt.line(g.node))
+        compare(key, "optimize on six coefficient/Jacobian definition sections", b.quadloop(orig), b.quadloop(out), outs, opt.line(g.node), DEF_EXTENTS)
         # every output symbol is still declared exactly once
         names = []
         for s_ in out:
@@ -192,7 +195,7 @@ def pass_equiv(repo, res):
     orig = copy.deepcopy(code)
     try:
         out = b.I.call_f(h, [code, "Coefficient"])
-        compare(key, "fuse_sections(Coefficient)", b.quadloop(orig), b.quadloop(out), outs, opt.line(h.node))
+        compare(key, "fuse_sections(Coefficient)", b.quadloop(orig), b.quadloop(out), outs, opt.line(h.node), DEF_EXTENTS)
         key3 = f"{h.key}:count"
         res.ob(key3)
         kinds = [s_.f["name"] for s_ in out]
@@ -208,7 +211,7 @@ def pass_equiv(repo, res):
     orig = copy.deepcopy(fused)
     try:
         out = b.I.call_f(h, [fused])
-        compare(key, "fuse_loops on the fused Coefficient section", b.quadloop(orig), b.quadloop(out), outs, opt.line(h.node))
+        compare(key, "fuse_loops on the fused Coefficient section", b.quadloop(orig), b.quadloop(out), outs, opt.line(h.node), DEF_EXTENTS)
     except Raised as e:
         res.fail(key, f"fuse_loops raises ({e.what})", opt.line(h.node))
     # ---- whole quadrature-loop body: definitions + intermediates + tensor computation
